@@ -257,7 +257,12 @@ func (r *batcher) Enqueue(op Operation) error {
 	verifPoint("enqueue:counted", op)
 
 	// put into the buffer
-	return r.buffer.enqueue(op, r.errorOnFullBuffer)
+	err := r.buffer.enqueue(op, r.errorOnFullBuffer)
+	if err != nil {
+		// the operation was not accepted so it must not count towards the target
+		r.incTarget(-int(op.Cost()))
+	}
+	return err
 }
 
 // Call this method when your datastore is throwing transient errors. This pauses the processing loop to ensure that you are not flooding
